@@ -81,7 +81,8 @@ Agg(fn, distinct, vals) ==
          [] fn = "sum"   -> IF vs = << >> THEN NULL ELSE SumSeq(vs)
          [] fn = "min"   -> IF vs = << >> THEN NULL ELSE MinOf(Range(vs))
          [] fn = "max"   -> IF vs = << >> THEN NULL ELSE MaxOf(Range(vs))
-         [] fn = "avg"   -> IF vs = << >> THEN NULL ELSE [num |-> SumSeq(vs), den |-> Len(vs)]
+         \* always a record (never compared with an integer): the average of nothing is num = NULL
+         [] fn = "avg"   -> IF vs = << >> THEN [num |-> NULL, den |-> 1] ELSE [num |-> SumSeq(vs), den |-> Len(vs)]
 
 \* an expression over a group of rows: aggregates range over the group, anything else is
 \* evaluated on the first row (legal SQL makes it a function of the grouping keys)
